@@ -208,10 +208,13 @@ def build(ctx, cfg):
     ctx.assume(And(list(pre.values())))
     seg = None
     if with_seg:
-        seg = SArr.fresh("seg", shape, np.int64)
+        seg_dt = np.dtype(cfg.get("seg_dtype", "int64"))
+        seg = SArr.fresh("seg", shape, seg_dt)
         p.seg0 = seg.c.copy()
         for x in p.seg0.flat:
             ctx.add(x >= 0)
+            if seg_dt.itemsize < 8:
+                ctx.add(x <= int(np.iinfo(seg_dt).max))
             if cfg.get("max_label") is not None:
                 ctx.add(x <= cfg["max_label"])  # bounded run: unmodelled numpy calls are followed by realisation
     scale_none = cfg.get("scale", "none") == "none"
@@ -239,6 +242,7 @@ def build(ctx, cfg):
     ctx.input("tid", p.tid0)
     ctx.input("lid", p.lid0)
     ctx.input("shape", list(shape))
+    ctx.input("seg_dtype", cfg.get("seg_dtype", "int64"))
     ctx.input("seg", None if seg is None else [p.seg0[idx] for idx in np.ndindex(*shape)])
     ctx.input("scale", p.scale0)
     ctx.input("multi_pos", multi_pos)
